@@ -8,6 +8,7 @@ import (
 	"encoding/hex"
 	"encoding/json"
 	"fmt"
+	"github.com/compose-spec/compose-go/v2/cli"
 	"github.com/compose-spec/compose-go/v2/types"
 	yaml "gopkg.in/yaml.v3"
 	"os"
@@ -375,9 +376,90 @@ func C02(c *core.Ctx) {
 			}
 		}
 	}
+	// ---- the command-line layer: same files, project environment, working directory and options - whatever the process
+	// environment holds (it is an input only through WithOsEnv, which these loads do not use) and wherever the process stands
+	c02ProcessEnv(c, wd)
 	if len(events) > 0 {
 		c.Sample(map[string]interface{}{"input": events[0].Input, "hash": events[0].Hash, "loads_of_this_input": k})
 	}
 	c.Logf("%d loads judged (%d inputs x %d repeats, %d histories, fresh process), 12 declaration orders", len(events), len(pool), k, nh)
 	c.Set("rule", "a case is one load of an input of the pool (multi-file merges, extends, include, version:, every custom-marshaller document) at some place of a history, in a repetition, or in a fresh process, or one declaration-order permutation; the rule tables are checked completely")
+}
+
+func c02ProcessEnv(c *core.Ctx, wd string) {
+	dir := filepath.Join(wd, "cliproj")
+	_ = os.MkdirAll(filepath.Join(dir, "other"), 0o755)
+	_ = os.WriteFile(filepath.Join(dir, "compose.yaml"), []byte("services:\n  a: {image: \"img-${VV:-none}\", build: ./ctx, env_file: [./a.env]}\n  dbg: {image: i, profiles: [dbg]}\n  perf: {image: i, profiles: [perf]}\n"), 0o644)
+	_ = os.WriteFile(filepath.Join(dir, "a.env"), []byte("FROMFILE=${VV:-unset}\n"), 0o644)
+	vars := []string{"COMPOSE_PROFILES", "COMPOSE_PROJECT_NAME", "COMPOSE_FILE", "COMPOSE_PATH_SEPARATOR", "COMPOSE_CONVERT_WINDOWS_PATHS", "VV", "HOME"}
+	saved := map[string]*string{}
+	for _, k := range vars {
+		if v, ok := os.LookupEnv(k); ok {
+			vv := v
+			saved[k] = &vv
+		}
+	}
+	cwd, _ := os.Getwd()
+	defer func() {
+		for _, k := range vars {
+			if saved[k] != nil {
+				os.Setenv(k, *saved[k])
+			} else {
+				os.Unsetenv(k)
+			}
+		}
+		_ = os.Chdir(cwd)
+	}()
+	digest := func(model bool) string {
+		po, err := cli.NewProjectOptions([]string{filepath.Join(dir, "compose.yaml")}, cli.WithWorkingDirectory(dir), cli.WithEnv([]string{"COMPOSE_PROFILES=dbg", "VV=explicit"}),
+			cli.WithDefaultProfiles(), cli.WithConfigFileEnv, cli.WithDefaultConfigPath)
+		if err != nil {
+			return "options-error: " + err.Error()
+		}
+		if model {
+			m, err := po.LoadModel(context.Background())
+			if err != nil {
+				return "error: " + err.Error()
+			}
+			b, _ := json.Marshal(m)
+			return string(b)
+		}
+		p, err := po.LoadProject(context.Background())
+		if err != nil {
+			return "error: " + err.Error()
+		}
+		y, _ := p.MarshalYAML()
+		return projDump(p) + string(y)
+	}
+	settings := []map[string]string{
+		{},
+		{"COMPOSE_PROFILES": "perf", "VV": "from-os", "COMPOSE_PROJECT_NAME": "osname"},
+		{"COMPOSE_PROFILES": "*", "COMPOSE_FILE": filepath.Join(dir, "nowhere.yaml"), "COMPOSE_PATH_SEPARATOR": "!", "COMPOSE_CONVERT_WINDOWS_PATHS": "1"},
+		{"COMPOSE_PROFILES": "", "VV": "", "HOME": filepath.Join(dir, "other")},
+	}
+	for _, model := range []bool{false, true} {
+		var first string
+		for i, st := range settings {
+			for _, k := range vars {
+				if v, ok := st[k]; ok {
+					os.Setenv(k, v)
+				} else if k != "HOME" {
+					os.Unsetenv(k)
+				}
+			}
+			if i%2 == 1 {
+				_ = os.Chdir(filepath.Join(dir, "other"))
+			} else {
+				_ = os.Chdir(cwd)
+			}
+			d := digest(model)
+			c.Eval(fmt.Sprintf("process-env|%v|%d", model, i), true)
+			if i == 0 {
+				first = d
+			} else if d != first {
+				c.Report(core.Finding{Sig: "depends-on-process-environment", Detail: fmt.Sprintf("the same files, project environment, working directory and options load differently (model=%v) when the process environment holds %v: %s", model, st, firstDiff(first, d)),
+					Replay: map[string]interface{}{"process_environment": st, "model": model}})
+			}
+		}
+	}
 }
